@@ -148,6 +148,9 @@ type stlCue struct {
 	// EBN (read direction): 0 = the block is numbered FFh (last block of its subtitle); n > 0 = extension block number n-1
 	// (00h..EFh), the block sharing its subtitle number with the next one. One cue per TTI block all the same
 	EBN int `json:"ebn,omitempty"`
+	// CS (read direction): the block's cumulative status byte (01h first, 02h intermediate, 03h last subtitle of a
+	// cumulative set): one cue per TTI block with its own timecodes and text all the same
+	CS int `json:"cs,omitempty"`
 }
 
 type stlGSI struct {
@@ -329,7 +332,7 @@ func renderSTL(d stlDoc) ([]byte, bool) {
 		} else {
 			sn++
 		}
-		blk[4] = 0
+		blk[4] = byte(c.CS)
 		blk[5], blk[6], blk[7], blk[8] = byte(c.In.H), byte(c.In.M), byte(c.In.S), byte(c.In.F)
 		blk[9], blk[10], blk[11], blk[12] = byte(c.Out.H), byte(c.Out.M), byte(c.Out.S), byte(c.Out.F)
 		blk[13] = byte(c.VP)
@@ -871,6 +874,13 @@ func addBlankRowsAndComments(t *rapid.T, d *stlDoc) {
 			c.ExtraBreak = rapid.IntRange(1, 3).Draw(t, "extrabreakat")
 		}
 		c.Comment = rapid.IntRange(0, 5).Draw(t, "commentflag") == 0
+		if rapid.IntRange(0, 3).Draw(t, "cumulative") == 0 {
+			// cumulative sets: first, intermediate(s), last in a row, or any status on its own
+			c.CS = []int{1, 2, 2, 3}[ci%4]
+			if rapid.IntRange(0, 3).Draw(t, "cslone") == 0 {
+				c.CS = rapid.IntRange(1, 3).Draw(t, "cs")
+			}
+		}
 		if rapid.IntRange(0, 5).Draw(t, "extblock") == 0 {
 			c.EBN = rapid.SampledFrom([]int{1, 2, 0x80, 0xf0}).Draw(t, "ebn")
 		}
